@@ -624,6 +624,7 @@ func tcLine(ws []string) (string, string) {
 
 type interp struct {
 	c        *vhlib.Ctx
+	f        *feedSim
 	s        *sim
 	slowLeft int
 }
@@ -646,6 +647,21 @@ func (it *interp) line(l string) {
 		} else {
 			it.s = s
 			obs, tag = "ok "+s.digest(), "new"
+		}
+	case "feed":
+		if len(ws) == 2 && ws[1] == "new" {
+			it.finishCase()
+			it.c.NewCase()
+			it.f = newFeedSim(it.c)
+			if it.f == nil {
+				obs, tag = "bad-op", "feed-bad"
+			} else {
+				obs, tag = "feed ok", "feed-new"
+			}
+		} else if it.f == nil {
+			obs, tag = "bad-op", "nofeed"
+		} else {
+			obs, tag = it.f.exec(ws, append(it.c.Case(), l))
 		}
 	case "adv":
 		it.finishCase()
@@ -675,6 +691,10 @@ func (it *interp) line(l string) {
 }
 
 func (it *interp) finishCase() {
+	if it.f != nil {
+		it.f.finish(it.c.Case())
+		it.f = nil
+	}
 	if it.s != nil {
 		it.s.o.finish(it.c.Case())
 		it.s = nil
